@@ -231,10 +231,10 @@ def gen_body(rng, pnames):
 
 
 # ------------------------------------------------------------------------------ classes
-def gen_class_with_init(rng, name="C_target", style=None):
+def gen_class_with_init(rng, name="C_target", style=None, inner_name="__init__", inner_kind="self"):
     """class whose docstring documents a SUBSET of the __init__ parameters as :cvar entries
     (so the class/__init__ merge has to append the remaining ones) and an __init__ to merge."""
-    f = gen_function(rng, name="__init__", kind="self", style="rest", doc_mode=rng.choice(["all", "some", "none"]))
+    f = gen_function(rng, name=inner_name, kind=inner_kind, style="rest", doc_mode=rng.choice(["all", "some", "none"]))
     style = style or "rest"
     cand = [p["name"] for p in f.params if p["kind"] != "kwargs"]
     k = rng.randint(0, max(0, len(cand) - 1)) if cand else 0
@@ -259,6 +259,10 @@ def gen_class_with_init(rng, name="C_target", style=None):
     nested_first = bool(nested) and rng.random() < 0.5
     if nested_first:
         lines += nested
+    if inner_kind == "static":
+        lines.append("    @staticmethod")
+    elif inner_kind == "cls":
+        lines.append("    @classmethod")
     for l in f.src.rstrip("\n").split("\n"):
         lines.append("    " + l)
     if nested and not nested_first:
